@@ -386,7 +386,7 @@ def translated_vs_python(run: lib.Run, facts: dict) -> tuple[bool, str]:
     import itertools
     import subprocess
     import types
-    from datetime import date
+    from datetime import datetime
 
     import pytolean_decide as pd
     import rbacx.core.engine as reng
@@ -447,8 +447,9 @@ def translated_vs_python(run: lib.Run, facts: dict) -> tuple[bool, str]:
                 want = {"raised": type(e).__name__, "trace": log}
             fn_val = None if comp[0] == "absent" else "<compiled fn>"
             ext = {"run_compiled": [[[proto.enc(fn_val), proto.enc(env)], outcome(comp)]] if comp[0] != "absent" else {"raised": True},
-                   "decide_policyset": [[[proto.enc(b), proto.enc(env)], outcome((s_out, {"by": "set", "policy": b, "env": env}))]],
-                   "decide_policy": [[[proto.enc(b), proto.enc(env)], outcome((p_out, {"by": "single", "policy": b, "env": env}))]]}
+                   # one row per value a read of self.policy can yield: the answer names the policy the evaluator was handed
+                   "decide_policyset": [[[proto.enc(x), proto.enc(env)], outcome((s_out, {"by": "set", "policy": x, "env": env}))] for x in (b, a, "THIRD-READ")],
+                   "decide_policy": [[[proto.enc(x), proto.enc(env)], outcome((p_out, {"by": "single", "policy": x, "env": env}))] for x in (b, a, "THIRD-READ")]}
             calls.append(("guard_decide_async", [fn_val, a, b, b, env], ext, {}, want))
     finally:
         loop.close()
@@ -461,14 +462,11 @@ def translated_vs_python(run: lib.Run, facts: dict) -> tuple[bool, str]:
     if sig["attrs"] != plug.INIT_FIELDS or sig["inputs"] != params or sig["outputs"] != ["self." + a for a in plug.INIT_FIELDS]:
         return False, f"guard_init: unexpected fields / parameters {sig['attrs']} {sig['inputs']}"
     pols = [("P-json", {"rules": [{"id": "r", "effect": "permit"}], "algorithm": "deny-overrides"}),
-            ("P-set", {"policies": [{"rules": []}]}), ("P-date", {"rules": [], "issued": date(2024, 6, 1)})]
+            ("P-set", {"policies": [{"rules": []}]}), ("P-datetime", {"rules": [], "issued": datetime(2024, 6, 1)})]
     for (pname, pol_), comp, chk, basic, lock, strict in itertools.product(pols, ("ok", "raised", "absent"), ("CHK", "", None), ("ok", "raised"),
                                                                          ("ok", "raised"), (False, True, 0, "yes", None)):
         if run.tier == "quick" and strict not in (False, "yes") and (basic, lock) != ("ok", "ok"):
             continue
-
-        def wire(v, pol_=pol_, pname=pname):
-            return pname if v is pol_ else v
 
         def compile_stub(p, comp=comp, pname=pname):
             if comp == "raised":
@@ -495,7 +493,7 @@ def translated_vs_python(run: lib.Run, facts: dict) -> tuple[bool, str]:
                   "cache": "CACHE", "cache_ttl": 300, "strict_types": strict}
         try:
             fns["__init__"](me, pol_, **kwargs)
-            want = {"out": [wire(getattr(me, a)) for a in plug.INIT_FIELDS], "trace": []}
+            want = {"out": [getattr(me, a) for a in plug.INIT_FIELDS], "trace": []}
         except RuntimeError as e:
             want = {"raised": str(e), "trace": []}
         try:
@@ -507,7 +505,7 @@ def translated_vs_python(run: lib.Run, facts: dict) -> tuple[bool, str]:
                "compile_policy": {"raised": True} if comp != "ok" else {"ok": f"FN({pname})"},
                "new_basic_checker": outcome((basic, "<basic>")), "new_lock": outcome((lock, "<lock>"))}
         prior = [f"PRIOR-{i}" for i in range(len(plug.INIT_FIELDS))]
-        calls.append(("guard_init", prior + [pname] + [kwargs[p] for p in params[1:]], ext, {"compile_policy_present": comp != "absent"}, want))
+        calls.append(("guard_init", prior + [pol_] + [kwargs[p] for p in params[1:]], ext, {"compile_policy_present": comp != "absent"}, want))
     n_init = len(calls) - n_decide
 
     lines = [json.dumps({"fn": fn, "args": [proto.enc(a) for a in args], "ext": ext, "flags": flags}) for fn, args, ext, flags, _ in calls]
@@ -599,12 +597,26 @@ def check(run: lib.Run, audit: dict) -> int:
     # … and of _decide_async / __init__: the evaluator's read of `_compiled` (and NO read of `policy`) when the compiled function answers,
     # the fallback's two separate reads of `policy`, the consistently installed initial state
     ok_dec, ok_dec_py, detail_dec = decide_obligation(run, audit)
+    if not ok_dec_py and not any(d.get("part") == "translated source vs python" for d in run.disagreements):
+        run.disagreements.append({"part": "translated source vs python", "what": detail_dec})
     compiled_installed_probe(run)
-    ok_shape, ok = ok, ok and ok_tr and ok_dec
+    # … and the evaluator's whole ACCESS PROGRAM from the text: the cache range with lock blocks / generation reads as effects, `_cache_key`
+    # expanded to the reads it makes, `_decide_async` to the accesses of its translation = Conc.expectedEvalMiss / expectedEvalHit
+    prog = (audit["facts"].get("translated_decide") or {}).get("engine_eval_program") if isinstance(audit["facts"].get("translated_decide"), dict) else None
+    ok_prog, detail_prog = lib.run_obligation("C09_eval_program", deps=["C09_decide_translated"])
+    run.obligation("C09_eval_program: Generated.Src.engine_eval_program (the cache range of Guard._evaluate_core_async with lock acquire/release and the "
+                   "reads of _policy_gen as effects, _cache_key / _decide_async as labelled calls), with _cache_key expanded to Generated.Src.cacheKeyReads "
+                   "(what _cache_key reads of self, from the text) and _decide_async to the access sequence of Generated.Src.guard_decide_async, is "
+                   "Conc.expectedEvalMiss (miss, generation unchanged) / Conc.expectedEvalHit (hit), for every outcome of every collaborator; generation "
+                   "moved: no cache.set, lock released", ok_prog,
+                   "discharged" if ok_prog else (str(prog["failed"]) if isinstance(prog, dict) and "failed" in prog else detail_prog))
+    ok_shape, ok = ok, ok and ok_tr and ok_dec and ok_prog
     if ok_shape and not ok_tr:
         detail = detail_tr
     elif ok_shape and not ok_dec:
         detail = detail_dec
+    elif ok_shape and not ok_prog:
+        detail = detail_prog
     run_cases(run, audit, scale=run.boost)
     inside_decision_probes(run)
     violations = []
@@ -622,7 +634,11 @@ def check(run: lib.Run, audit: dict) -> int:
                                                         "Rbacx.Conc assumes (the compiled function's value after ONE read of _compiled and no read of policy; "
                                                         "fallback: dispatch on the first read of self.policy, evaluation of the second, exceptions propagate) / "
                                                         "the consistently installed initial state (generation 0, etag and compiled function of the "
-                                                        "constructor's policy)" if ok_tr else
+                                                        "constructor's policy)" if ok_tr and not ok_dec else
+                                                        "per-run obligation Rbacx/Run/C09_eval_program.lean no longer checks: the access program of the "
+                                                        "evaluation read off the source text (lock blocks, generation reads, the read of policy_etag inside "
+                                                        "_cache_key, the lookup, the accesses of _decide_async, the conditional store) is not "
+                                                        "Conc.expectedEvalMiss / expectedEvalHit, the programs theorems Rbacx.C09.* are about" if ok_tr else
                                                         "per-run obligation Rbacx/Run/C08_translated.lean no longer checks: the translated source of the "
                                                         "cache range of the evaluation / of set_policy is not proved to be the evaluator / updater program "
                                                         "theorems Rbacx.C09.* are about (store only if the generation is unchanged; bump, publish, clear "
